@@ -74,15 +74,80 @@ pub fn get_schema(sx: &Sx) -> Result<serde_avro_fast::Schema, String> {
 	}
 }
 
+/// Output sinks of `ser` / `sos`: a Vec (default), a writer whose `write` takes at most K bytes per call
+/// (`(sink short K)`: short writes, as a socket or pipe may do), a fixed-size slice of N bytes (`(sink fixed N)`:
+/// `&mut [u8]`, whose `write` takes what still fits and then answers Ok(0))
+enum Sink {
+	Vec,
+	Short(usize),
+	Fixed(usize),
+}
+
+/// the optional trailing arguments of `ser` / `sos`: `slow` and `(sink short K)` | `(sink fixed N)` in any order
+fn ser_options(a: &[Sx]) -> Result<(bool, Sink), String> {
+	let mut slow = false;
+	let mut sink = Sink::Vec;
+	for o in a {
+		if o.atom() == Ok("slow") {
+			slow = true;
+			continue;
+		}
+		let (h, sa) = o.head()?;
+		if h != "sink" || sa.len() != 2 {
+			return Err("expected slow | (sink short K) | (sink fixed N)".into());
+		}
+		sink = match sa[0].atom()? {
+			"short" => Sink::Short(sa[1].int::<usize>()?.max(1)),
+			"fixed" => Sink::Fixed(sa[1].int::<usize>()?),
+			other => return Err(format!("unknown sink {other}")),
+		};
+	}
+	Ok((slow, sink))
+}
+
+/// runs `f` with the chosen sink; -> the bytes that reached the sink when `f` returned Ok
+fn with_sink(
+	sink: &Sink,
+	f: &mut dyn FnMut(&mut dyn std::io::Write) -> Result<(), serde_avro_fast::ser::SerError>,
+) -> Result<Vec<u8>, serde_avro_fast::ser::SerError> {
+	match *sink {
+		Sink::Vec => {
+			let mut out: Vec<u8> = Vec::new();
+			f(&mut out)?;
+			Ok(out)
+		}
+		Sink::Short(k) => {
+			let mut w = io::ScheduledWriter::new(vec![io::WAns::Accept(k)], false);
+			f(&mut w)?;
+			Ok(w.out)
+		}
+		Sink::Fixed(n) => {
+			let mut buf = vec![0u8; n];
+			let left = {
+				let mut slice: &mut [u8] = &mut buf[..];
+				f(&mut slice)?;
+				slice.len()
+			};
+			buf.truncate(n - left);
+			Ok(buf)
+		}
+	}
+}
+
 fn cmd_ser(a: &[Sx]) -> Result<String, String> {
-	// ser SCHEMA SVAL [slow]
+	// ser SCHEMA SVAL [slow] [(sink short K) | (sink fixed N)]
 	let schema = get_schema(&a[0])?;
 	let v = sval::SVal::from_sx(&a[1])?;
 	let mut cfg = serde_avro_fast::ser::SerializerConfig::new(&schema);
-	if a.get(2).map_or(false, |f| f.atom() == Ok("slow")) {
+	let (slow, sink) = ser_options(&a[2..])?;
+	if slow {
 		cfg.allow_slow_sequence_to_bytes();
 	}
-	Ok(match serde_avro_fast::to_datum_vec(&v, &mut cfg) {
+	let res = match sink {
+		Sink::Vec => serde_avro_fast::to_datum_vec(&v, &mut cfg),
+		_ => with_sink(&sink, &mut |w| serde_avro_fast::to_datum(&v, w, &mut cfg).map(|_| ())),
+	};
+	Ok(match res {
 		Ok(b) => format!("(ok {})", hex(&b)),
 		Err(e) => format!("(err {})", esc(&e.to_string())),
 	})
@@ -203,12 +268,20 @@ impl<'de> serde::Deserialize<'de> for Recorded {
 	}
 }
 
-/// sos SCHEMA SVAL : single-object serialization
+/// sos SCHEMA SVAL [slow] [(sink short K) | (sink fixed N)] : single-object serialization
 fn cmd_sos(a: &[Sx]) -> Result<String, String> {
 	let schema = get_schema(&a[0])?;
 	let v = sval::SVal::from_sx(&a[1])?;
 	let mut cfg = serde_avro_fast::ser::SerializerConfig::new(&schema);
-	Ok(match serde_avro_fast::to_single_object_vec(&v, &mut cfg) {
+	let (slow, sink) = ser_options(&a[2..])?;
+	if slow {
+		cfg.allow_slow_sequence_to_bytes();
+	}
+	let res = match sink {
+		Sink::Vec => serde_avro_fast::to_single_object_vec(&v, &mut cfg),
+		_ => with_sink(&sink, &mut |w| serde_avro_fast::to_single_object(&v, w, &mut cfg).map(|_| ())),
+	};
+	Ok(match res {
 		Ok(b) => format!("(ok {} {})", hex(&b), hex(schema.rabin_fingerprint())),
 		Err(e) => format!("(err {})", esc(&e.to_string())),
 	})
@@ -322,6 +395,101 @@ fn cmd_freeze(a: &[Sx]) -> Result<String, String> {
 	})
 }
 
+/// Writer that refuses to grow past a limit (a regeneration that never ends becomes an error instead of exhausting memory)
+struct Bounded {
+	out: Vec<u8>,
+	limit: usize,
+}
+impl std::io::Write for Bounded {
+	fn write(&mut self, b: &[u8]) -> std::io::Result<usize> {
+		if self.out.len() + b.len() > self.limit {
+			return Err(std::io::Error::new(std::io::ErrorKind::Other, "output limit"));
+		}
+		self.out.extend_from_slice(b);
+		Ok(b.len())
+	}
+	fn flush(&mut self) -> std::io::Result<()> {
+		Ok(())
+	}
+}
+
+fn cmd_tojson(a: &[Sx]) -> Result<String, String> {
+	// tojson SCHEMA_NODES : the JSON regenerated from a node graph by `impl Serialize for SchemaMut` alone (freeze only gets there
+	// after the fingerprint pass has accepted the graph). -> (ok xJSON) | (err xMSG) | (unbounded N): more than 4 MiB were written
+	let s = schema::schema_from_sx(&a[0])?;
+	let mut w = Bounded { out: Vec::new(), limit: 4 << 20 };
+	Ok(match serde_json::to_writer(&mut w, &s) {
+		Ok(()) => format!("(ok {})", hex(&w.out)),
+		Err(e) if e.is_io() => format!("(unbounded {})", w.out.len()),
+		Err(e) => format!("(err {})", esc(&e.to_string())),
+	})
+}
+
+fn cmd_mutseq(a: &[Sx]) -> Result<String, String> {
+	// mutseq START OP... : a history of observations and edits on ONE SchemaMut value
+	// START ::= (schema ..) | (json xTEXT)
+	// OP ::= fp | json | touch | clone | (set K (node ..)) | (push (node ..)) | freeze
+	// prints (ok R...) with one R per observing op:
+	//   fp     -> (fp xFINGERPRINT xCANONICALFORM) | (fp-err)   fingerprint asked FIRST, then the canonical form text (hook H1)
+	//   json   -> (json xTEXT) | (json-err)                      serde_json::to_string(&SchemaMut)
+	//   freeze -> (frozen xFINGERPRINT xJSON) | (freeze-err)     of a clone of the current value (the history goes on)
+	use serde_avro_fast::schema::SchemaMut;
+	let (h, sa) = a[0].head()?;
+	let mut s: SchemaMut = match h {
+		"schema" => schema::schema_from_sx(&a[0])?,
+		"json" => match sa[0].string()?.parse::<SchemaMut>() {
+			Ok(s) => s,
+			Err(e) => return Ok(format!("(parse-err {})", esc(&e.to_string()))),
+		},
+		_ => return Err("expected (json ..) or (schema ..)".into()),
+	};
+	let mut out = String::from("(ok");
+	for op in &a[1..] {
+		let (h, oa) = op.head()?;
+		match h {
+			"fp" => {
+				let fp = s.canonical_form_rabin_fingerprint();
+				let pcf = s.verif_canonical_form();
+				match (fp, pcf) {
+					(Ok(f), Ok(p)) => out.push_str(&format!(" (fp {} {})", hex(&f), esc(&p))),
+					(Err(_), Err(_)) => out.push_str(" (fp-err)"),
+					(f, p) => out.push_str(&format!(" (fp-inconsistent {} {})", f.is_ok(), p.is_ok())),
+				}
+			}
+			"json" => match serde_json::to_string(&s) {
+				Ok(t) => out.push_str(&format!(" (json {})", esc(&t))),
+				Err(_) => out.push_str(" (json-err)"),
+			},
+			"touch" => {
+				let _ = s.nodes_mut();
+			}
+			"clone" => {
+				s = s.clone();
+			}
+			"set" => {
+				let k: usize = oa[0].int()?;
+				let node = schema::node_from_sx(&oa[1])?;
+				let nodes = s.nodes_mut();
+				if k >= nodes.len() {
+					return Err("set: key out of range".into());
+				}
+				nodes[k] = node;
+			}
+			"push" => {
+				let node = schema::node_from_sx(&oa[0])?;
+				s.nodes_mut().push(node);
+			}
+			"freeze" => match s.clone().freeze() {
+				Ok(f) => out.push_str(&format!(" (frozen {} {})", hex(f.rabin_fingerprint()), esc(f.json()))),
+				Err(_) => out.push_str(" (freeze-err)"),
+			},
+			other => return Err(format!("mutseq: unknown op {other}")),
+		}
+	}
+	out.push(')');
+	Ok(out)
+}
+
 fn run_case(line: &str) -> String {
 	let parts = match Sx::parse_many(line) {
 		Ok(p) => p,
@@ -341,6 +509,8 @@ fn run_case(line: &str) -> String {
 		"fp" => cmd_fp(args),
 		"parse" => cmd_parse(args),
 		"freeze" => cmd_freeze(args),
+		"mutseq" => cmd_mutseq(args),
+		"tojson" => cmd_tojson(args),
 		"hist" => cmd_hist(args),
 		"sos" => cmd_sos(args),
 		"dealloc" => cmd_dealloc(args),
@@ -360,6 +530,8 @@ fn run_case(line: &str) -> String {
 		}
 		"rtkf" => Ok(rt_kf::run()),
 		"cw" => container::cmd_cw(args),
+		"cwh" => container::cmd_cwh(args),
+		"blockdec" => container::cmd_blockdec(args),
 		"cr" => container::cmd_cr(args),
 		"crt" => decblock::cmd_crt(args),
 		"decode" => decblock::cmd_decode(args),
